@@ -28,7 +28,7 @@ EXPLANATION = (
     ' Rounds 7-8: R2 also: a header is refused only for a wrong prefix or inconsistent lengths (rejects-nothing-else); R8 classifies the 0xC0 decoders by the header class they receive.'
 )
 ASSUMPTIONS = ["struct pack/unpack layout as computed from the literal format strings", "a message object is an instance of exactly one class of its encoder's union annotation"]
-FLOORS = {"C03.R8": 20, "C03.R1": 30, "C03.R2": 8, "C03.R3": 120, "C03.R4": 8, "C03.R5": 40, "C03.R6": 8, "C03.R7": 4, "C03.R9": 1, "C03.R10": 1, "C03.R11": 1}
+FLOORS = {"C03.R8": 20, "C03.R1": 30, "C03.R2": 8, "C03.R3": 120, "C03.R4": 8, "C03.R5": 40, "C03.R6": 8, "C03.R7": 4, "C03.R9": 1, "C03.R10": 1, "C03.R11": 1, "C03.R12": 1, "C03.R13": 1, "C03.R14": 1, "C03.R15": 12}
 
 PAIRS = [
     ("at4", "x2A_group_ctrl", "GroupControlEncoder", "GroupControlDecoder"),
@@ -55,7 +55,94 @@ OPAQUE_OK = {
 }
 
 
+def r15(ctx, R="C03.R15"):
+    """Lengths agree on the receive side too: a decoder hands back exactly the bytes beyond the announced message length.  Decided
+    in the buffer-offset domain (sa/offsets.py) for every sub-decoder it can follow: on each returning path whose conditions
+    constrain header.message_length, for every length 0..120 those conditions admit, `remaining` starts at that length.  (A path
+    that leaves announced bytes in `remaining` makes the frame 'incomplete' upstream: the legal frame is refused and the
+    connection reset.)  Fixed-size decoders (no condition on the length, constant start) are counted, not decided here."""
+    import re as _re
+    from fractions import Fraction as _F
+
+    from .. import offsets as OF
+
+    def ev_l(l, ml):
+        tot = _F(0)
+        for k, c in l.items():
+            if k == "":
+                tot += c
+            elif k == "ML":
+                tot += c * ml
+            else:
+                mm = _re.fullmatch(r"(mod|fd)\(ML,(\d+)\)", k)
+                if mm is None:
+                    return None
+                tot += c * (ml % int(mm.group(2)) if mm.group(1) == "mod" else ml // int(mm.group(2)))
+        return tot
+
+    def ev_c(c, ml):
+        if c[0] in ("lt0", "eq0", "ne0"):
+            v = ev_l(OF.parse_l(c[1]), ml)
+            if v is None:
+                return None
+            return {"lt0": v < 0, "eq0": v == 0, "ne0": v != 0}[c[0]]
+        if c[0] in ("and", "or"):
+            vs = [ev_c(x, ml) for x in c[1:]]
+            if c[0] == "and":
+                return False if any(v is False for v in vs) else (True if all(v is True for v in vs) else None)
+            return True if any(v is True for v in vs) else (False if all(v is False for v in vs) else None)
+        if c[0] == "not":
+            v = ev_c(c[1], ml)
+            return None if v is None else not v
+        if c == OF.TRUE:
+            return True
+        if c == OF.FALSE:
+            return False
+        return None
+
+    decided = fixed = 0
+    for name, mm in sorted(ctx.repo.modules.items()):
+        if ".comms." not in name:
+            continue
+        for cn, ci in mm.classes.items():
+            if not cn.endswith("Decoder") or "decode" not in ci.methods:
+                continue
+            fn = ci.methods["decode"]
+            ps = [a.arg for a in fn.args.args]
+            if len(ps) != 3:
+                continue
+            try:
+                exits = [OF.simplify_exit(e) for e in OF.Offsets(ctx.repo, mm, fn, ps[1], ps[2], ci).analyse()]
+            except AnalysisError:
+                continue  # outside the offset domain (decided, or reported as such, by C05)
+            lab = f"{name.split('pyairtouch.')[-1]}.{cn}"
+            for ex in exits:
+                v = ex.value
+                rem = v.fields.get("remaining") if ex.kind == "return" and isinstance(v, OF.Obj) else None
+                if not isinstance(rem, OF.Bf) or rem.hi is not None:
+                    continue
+                if any(k not in ("", "ML") for k in rem.lo):
+                    continue
+                constrained = [c for c in ex.conds if "ML" in OF.cfmt(c)]
+                if not constrained:
+                    fixed += 1
+                    continue
+                decided += 1
+                bad = None
+                for ml in range(0, 121):
+                    if any(ev_c(c, ml) is False for c in ex.conds):
+                        continue
+                    start = ev_l(rem.lo, ml)
+                    if start != ml:
+                        bad = f"with message_length == {ml} the path returns remaining = buffer[{OF.lfmt(rem.lo)}:] (announced bytes are handed back as if they belonged to the next message)"
+                        break
+                ctx.check(bad is None, R, f"{lab}:consumes-the-announced-length[{'; '.join(OF.cfmt(c) for c in constrained)[:60]}]", mm, fn, "remaining starts at header.message_length for every length the path admits", bad or "")
+    ctx.holds(R, "decoders:census", None, None, f"{decided} returning paths decided, {fixed} fixed-size paths (no condition on the length) counted")
+    ctx.require(decided >= 12, f"only {decided} decoder paths could be followed in the offset domain (20 on the reference tree)")
+
+
 def run(ctx):
+    r15(ctx)
     r1(ctx)
     r1b(ctx)
     r8(ctx)
@@ -75,6 +162,16 @@ def run(ctx):
     from . import c06
 
     reuse(ctx, "C03.R11", [c06.r1, c06.r2, c06.r3, c06.r4], "the check bytes the send path appends are the ones the receive path recomputes and compares (same algorithm, same span), so a produced frame is accepted (C06.R1-R4)")
+    from . import c13
+
+    reuse(ctx, "C03.R12", [lambda c: c13.r3(c, "C13.R3")], "an accepted frame yields its header and message at the subscribers: every successful read is delivered, once, with exactly the pair that was read (C13.R3)",
+          keep=lambda o: o.construct.startswith("_read:") or o.verdict != "HOLDS")
+    from . import c05
+
+    reuse(ctx, "C03.R13", [c05.r5], "a message with several records parses back record by record: record k is read at its own position (k times the stride), for every repeat count (C05.R5)",
+          keep=lambda o: ":records" in o.construct or ":stride" in o.construct or ":loop" in o.construct or o.verdict != "HOLDS")
+    reuse(ctx, "C03.R14", [c01.r5], "the header framed on a retry is the header the send path was given: the re-queued entry copies header, message and expiry of the failed one (C01.R5)",
+          keep=lambda o: "re-queue" in o.construct or o.verdict != "HOLDS")
     reuse(ctx, "C03.R9", [c01.r6], "every packet id the header factories hand out fits the header's packet-id slot, so every message can be framed (C01.R6)")
 
 
@@ -501,6 +598,10 @@ def compare_field(ctx, R, lab, fname, d, enc_lay, smap, m, node, path=""):
             else:
                 inv_mul = 1 / d.mul if d.mul else None
                 inv_add = -d.add / d.mul if d.mul else None
+                if isinstance(got, tuple) and got[0] == "s":
+                    from .common import harmless_clamp
+
+                    got = (got[0], harmless_clamp(got[1]), got[2])
                 ok = isinstance(got, tuple) and got[0] == "s" and got[1].startswith("lin:") and got[1].endswith(f".{full}*{inv_mul}+{inv_add}") and got[2] == k
             if not ok:
                 bad.append(f"B{p[0]}.{p[1]}: decoder reads {full}[{k}], encoder writes {got[1] + '[' + str(got[2]) + ']' if isinstance(got, tuple) else got}")
